@@ -571,3 +571,36 @@ Proof.
   apply mem_name_false in Hn. rewrite Hn. eexists. split; [reflexivity|]. simp_st. rewrite !upd_eq. auto.
 Qed.
 
+
+
+(* ------------------------------------------------------------------ request bursts *)
+Lemma req_burst_no_loss : forall A (cap : nat) (rs q : list A),
+  (length q + length rs <= cap)%nat -> req_burst cap q rs = q ++ rs.
+Proof.
+  intros A cap rs; induction rs as [|r rs IH]; intros q Hlen; cbn in *.
+  - rewrite app_nil_r; reflexivity.
+  - unfold req_enqueue at 2. destruct (cap <=? length q)%nat eqn:E.
+    + apply Nat.leb_le in E. lia.
+    + unfold req_burst in IH. rewrite IH.
+      * rewrite <- app_assoc. reflexivity.
+      * rewrite app_length; cbn; lia.
+Qed.
+
+Lemma req_burst_from_empty : forall A (cap : nat) (rs : list A),
+  (length rs <= cap)%nat -> req_burst cap [] rs = rs.
+Proof. intros A cap rs H. apply (req_burst_no_loss A cap rs []). cbn; exact H. Qed.
+
+(* beyond the capacity the oldest requests are the ones that go *)
+Lemma req_burst_length : forall A (cap : nat) (rs q : list A),
+  (0 < cap)%nat -> (length q <= cap)%nat -> length (req_burst cap q rs) = Nat.min cap (length q + length rs).
+Proof.
+  intros A cap rs; induction rs as [|r rs IH]; intros q Hc Hq; cbn.
+  - lia.
+  - unfold req_burst in IH. rewrite IH; try exact Hc.
+    + unfold req_enqueue. destruct (cap <=? length q)%nat eqn:E.
+      * apply Nat.leb_le in E. rewrite app_length; cbn. destruct q; cbn in *; lia.
+      * apply Nat.leb_gt in E. rewrite app_length; cbn. lia.
+    + unfold req_enqueue. destruct (cap <=? length q)%nat eqn:E.
+      * apply Nat.leb_le in E. rewrite app_length; cbn. destruct q; cbn in *; lia.
+      * apply Nat.leb_gt in E. rewrite app_length; cbn. lia.
+Qed.
